@@ -57,4 +57,15 @@ PROPS = {
         "trusted_base": [],
         "level_text": "Coq proofs: decode(encode v ++ r) = (v, r) and skip advances by exactly |encode v| for every well-formed value of every shape and depth (model of SkipGo incl. its fixed-size fast paths), unwrap(wrap ...) returns name/type/seq/id/body with header++body++footer = wrap, and the model's leaf tables equal the definitions generated from thrift/*.go (typeSize, Type.Valid/IsInt/IsComplex, big-endian decoders). Correspondence: writer/reader for all scalar kinds, strings, SkipGo and SkipNative cursors on generated/truncated/corrupted values, envelopes, WriteAny/ReadAny round trips.",
     },
+    "C11": {
+        "level": "proof",
+        "n": {"quick": 3000, "thorough": 150000},
+        "gen_needs": [],
+        "assumptions": [
+            "only the Thrift half (Value.MarshalTo) is modelled here; the Protobuf half is checked with the Protobuf family (C10)",
+            "values conform to the source descriptor up to unknown fields; target descriptors are structural variants (field subsets/supersets at every depth, shared / cloned / separately parsed sub-descriptors)",
+        ],
+        "trusted_base": [],
+        "level_text": "Gallina spec project(from,to,opts) on the decoded AST (ids in both descriptors kept in source order, unknown dropped/error, required check, default zero-fill, raw copy for the same descriptor) with theorems about it; the implementation's MarshalTo output must be byte-identical to the encoding of the projection (error class otherwise) on generated descriptor pairs incl. pointer-equal and separately parsed ones.",
+    },
 }
